@@ -199,13 +199,20 @@ pub fn gen_c01(sh: &mut Shards, o: &Opts) -> serde_json::Value {
 }
 
 fn emit_dec_probe<T: Pixel>(sh: &mut Shards, c: &Cfg, st: u8, px: &[[u16; 3]], w: usize, h: usize, idx: &[usize]) {
-    let yuv: Yuv<T> = yuv444::<T>(px, w, h, c).expect("ctor");
     let sel: Vec<[u16; 3]> = idx.iter().map(|&i| px[i]).collect();
     let mut s = String::new();
     let _ = write!(s, "\"ev\":\"dec\",\"probe\":1,\"cfg\":{},\"st\":{st},\"w\":{w},\"h\":{h},\"px\":", c.json());
     list(&mut s, &sel, |o, p| {
         let _ = write!(o, "[{},{},{}]", p[0], p[1], p[2]);
     });
+    let yuv: Yuv<T> = match crate::util::guard(|| yuv444::<T>(px, w, h, c)) {
+        Ok(Ok(y)) => y,
+        other => {
+            let _ = write!(s, ",\"res\":\"ctor:{}\"", other.map(|r| r.map(|_| "").unwrap_or_else(crate::frames::err_name_yuv)).unwrap_or("panic"));
+            sh.emit(&s);
+            return;
+        }
+    };
     match crate::util::guard(|| Rgb::try_from(&yuv)).map_err(|p| p.to_string()).and_then(|r| r.map_err(|e| crate::frames::err_name_conv(e).to_string())) {
         Ok(rgb) if rgb.data().len() == px.len() => {
             let out: Vec<[f32; 3]> = idx.iter().map(|&i| rgb.data()[i]).collect();
@@ -611,13 +618,20 @@ pub fn gen_c16_yuv(sh: &mut Shards, o: &Opts) -> u64 {
             let total = 1usize << n;
             let px: Vec<[u16; 3]> = (0..w * h).map(|i| [(i % total) as u16, mid, mid]).collect();
             let idx = crate::util::probe_indices(w * h, w, &mut rng);
-            let yuv = yuv444::<u16>(&px, w, h, &c).expect("ctor");
             let sel: Vec<[u16; 3]> = idx.iter().map(|&i| px[i]).collect();
             let mut s = String::new();
             let _ = write!(s, "\"ev\":\"grey\",\"probe\":1,\"cfg\":{},\"st\":16,\"w\":{w},\"h\":{h},\"px\":", c.json());
             list(&mut s, &sel, |o2, p| {
                 let _ = write!(o2, "[{},{},{}]", p[0], p[1], p[2]);
             });
+            let yuv = match crate::util::guard(|| yuv444::<u16>(&px, w, h, &c)) {
+                Ok(Ok(y)) => y,
+                other => {
+                    let _ = write!(s, ",\"res\":\"ctor:{}\"", other.map(|r| r.map(|_| "").unwrap_or_else(crate::frames::err_name_yuv)).unwrap_or("panic"));
+                    sh.emit(&s);
+                    continue;
+                }
+            };
             match crate::util::guard(|| Rgb::try_from(&yuv)) {
                 Ok(Ok(rgb)) if rgb.data().len() == px.len() => {
                     let out: Vec<[f32; 3]> = idx.iter().map(|&i| rgb.data()[i]).collect();
